@@ -81,17 +81,24 @@ ESC = "\U0001d1c0"
 # --------------------------------------------------------------------------
 
 PLAIN_KEYS = ["a", "b", "c", "d", "k1", "key 2", "x.y", "a'b", 'a"b', "a]b", "[0]", "1", "", "é", "root", "A", "id",
-              "old_type", "new_type", "values_changed", "old_value", "new_value", "new_path"]
+              "old_type", "new_type", "values_changed", "old_value", "new_value", "new_path",
+              # member names that begin / end with ONE kind of quote character (both kinds in one key = finding K5)
+              '15"', "users'", "'90s", '"q', "'", '"', "'a'", '"a"', "it's", 'say "hi"',
+              # non-ASCII, astral and unpaired-surrogate names (json.loads accepts "\ud83d")
+              "caf\u00e9", "\u65e5\u672c", "\U0001F600", "\ud83d", "x\udc00"]
 HOSTILE_KEYS = ["q'\"", "k" + ESC]
-STRS = ["", "x", "abc", "abd", "line1\nline2\nline3", "line1\nline2\nline4", "int", "str", "NoneType", "é中", "a'b", "True", "1", " "]
+STRS = ["", "x", "abc", "abd", "line1\nline2\nline3", "line1\nline2\nline4", "int", "str", "NoneType", "é中", "a'b", "True", "1", " ",
+        "caf\u00e9", "\U0001F600 \u65e5\u672c", "\ud83d", "\udc00x", "a\ud800b", 'q"', "'q"]
+HUGE = 10 ** 400 + 12345            # float(HUGE) raises OverflowError
+INF = float("inf")                  # what json.loads gives for 1e999; int(INF) raises OverflowError
 
 
 def gen_scalar(rng):
     r = rng.random()
     if r < 0.3:
-        return rng.choice([0, 1, 2, 3, -1, 7, 10, 255, -1000, 2 ** 31, 2 ** 53 + 1, -2 ** 63])
+        return rng.choice([0, 1, 2, 3, -1, 7, 10, 255, -1000, 2 ** 31, 2 ** 53 + 1, -2 ** 63, HUGE, -HUGE, 10 ** 400])
     if r < 0.45:
-        return rng.choice([0.0, 1.0, 1.5, -2.5, 0.1, 0.30000000000000004, 1e100, 1e-100, 3.141592653589793])
+        return rng.choice([0.0, 1.0, 1.5, -2.5, 0.1, 0.30000000000000004, 1e100, 1e-100, 3.141592653589793, INF, -INF, 1e308])
     if r < 0.55:
         return rng.choice([True, False])
     if r < 0.63:
@@ -159,6 +166,10 @@ def edit_once(rng, doc, hostile):
             c[k] = gen_scalar(rng)
             return doc, "value_changed"
         if op == "type":
+            if isinstance(c[k], (int, float)) and not isinstance(c[k], bool) and rng.random() < 0.5:
+                # int <-> float, including values the other type cannot hold
+                c[k] = rng.choice([1.5, 2.0, INF]) if isinstance(c[k], int) else rng.choice([3, HUGE, 0])
+                return doc, "number_type_changed"
             c[k] = rng.choice([[c[k]], {"w": c[k]}, str(c[k]), None, [], {}])
             return doc, "type_changed"
         c[k] = gen_doc(rng, 2, hostile)
@@ -178,6 +189,9 @@ def edit_once(rng, doc, hostile):
         c[i] = gen_scalar(rng)
         return doc, "list_item_changed"
     if op == "type":
+        if isinstance(c[i], (int, float)) and not isinstance(c[i], bool) and rng.random() < 0.5:
+            c[i] = rng.choice([1.5, 2.0, INF]) if isinstance(c[i], int) else rng.choice([3, HUGE, 0])
+            return doc, "number_type_changed"
         c[i] = rng.choice([[c[i]], {"w": c[i]}, None])
         return doc, "type_changed"
     j = rng.randrange(len(c))
@@ -252,7 +266,27 @@ FIXED_PAIRS = [
     ({"old_type": 1, "new_type": {}}, {"old_type": 1, "new_type": {}, "x": 1}),                    # C20-TYPEHOOK (valid JSON fails to load)
     ({"q'\"": 1}, {"q'\"": 2}),                                                                       # C20-K5
     ({"k" + ESC: 1}, {"k" + ESC: 2}),                                                                # C20-K6
+    # serialisation of the patched document: unpaired surrogate, non-ASCII and astral text in values and names
+    ({"a": "x", "l": ["y"]}, {"a": "\ud83d", "caf\u00e9": "\U0001F600", "l": ["y", "\u65e5\u672c\udc00"], "\ud83d": 1}),
+    # member names beginning / ending with one kind of quote character, on the path of a difference
+    ({'15"': 1, "users'": [1], "'90s": {"x": 1}, '"q': 0, "'a'": [0]}, {'15"': 2, "users'": [1, 2], "'90s": {"x": 2}, '"q': None, "'a'": [0, {"'": 1}]}),
+    # number type changes whose constructor call overflows: float(10**400), int(inf)
+    ({"n": HUGE, "m": INF, "l": [HUGE, 1], "k": -INF}, {"n": 1.5, "m": 3, "l": [2.5, 1], "k": 0}),
+    ({"n": 1.5, "m": 3}, {"n": HUGE, "m": INF}),
 ]
+
+
+_INF_RE = None
+
+
+def json_src(doc, **kw):
+    """JSON source text of a document; infinities are written as the (syntactically valid) out-of-range
+    numbers 1e999 / -1e999 rather than Python's Infinity token"""
+    global _INF_RE
+    import re
+    if _INF_RE is None:
+        _INF_RE = re.compile(r'(?<![\w"\\])(-?)Infinity(?![\w"])')
+    return _INF_RE.sub(lambda m: m.group(1) + "1e999", json.dumps(doc, **kw))
 
 
 def a_text_of(doc, rng):
@@ -260,10 +294,15 @@ def a_text_of(doc, rng):
     'rewritten with the same document' are distinguishable)."""
     style = rng.randrange(3)
     if style == 0:
-        return json.dumps(doc, indent=1) + "\n "
+        return json_src(doc, indent=1) + "\n "
     if style == 1:
-        return json.dumps(doc, separators=(",", ":")) + "\n \n"
-    return " " + json.dumps(doc, ensure_ascii=False, indent=3) + "\n "
+        return json_src(doc, separators=(",", ":")) + "\n \n"
+    t = " " + json_src(doc, ensure_ascii=False, indent=3) + "\n "
+    try:
+        t.encode("utf-8")
+        return t
+    except UnicodeEncodeError:          # unpaired surrogates can only be written as \uXXXX escapes
+        return " " + json_src(doc, indent=3) + "\n "
 
 
 # --------------------------------------------------------------------------
@@ -663,7 +702,7 @@ def atoms_py(doc):
 def in_universe(doc):
     """representable in Base/Value.v: JSON containers, str keys, str/int/bool/None, half-integer floats"""
     for a in atoms_py(doc):
-        if a is None or isinstance(a, (bool, int, str)):
+        if a is None or isinstance(a, (bool, str)) or (isinstance(a, int) and abs(a) < 10 ** 30):
             continue
         if isinstance(a, float) and a == a and abs(a) < 1e15 and (a * 2) == int(a * 2):
             continue
@@ -840,7 +879,7 @@ def pair_task(args):
     from deepdiff.serialization import json_loads
     rng = random.Random(seed)
     work = tempfile.mkdtemp(prefix="p%d_" % idx, dir=scratch)
-    b_text = json.dumps(b_doc, indent=2) + "\n"     # never the canonical text either
+    b_text = json_src(b_doc, indent=2) + "\n"     # never the canonical text either
     res = {"cases": [], "fails": [], "counts": {}, "seen": [], "samples": [], "guard_cases": [], "payload_cases": []}
 
     def count(k, n=1):
@@ -959,6 +998,73 @@ def pair_task(args):
     count("result:" + ("equals_B" if resid == idb else ("equals_A_not_B" if resid == ida else "neither")))
     shutil.rmtree(work, ignore_errors=True)
     return res
+
+
+NONASCII = ["caf\u00e9", "\u65e5\u672c\u8a9e", "\U0001F600", "na\u00efve \u2013 \u20ac", "\u0416"]
+
+
+def locale_task(args):
+    """the real command line tool as a separate process under a non-UTF-8 preferred encoding
+    (LC_ALL=C, PYTHONUTF8=0): `deep diff A B --create-patch > P ; deep patch A P`.  The files are pure
+    ASCII (non-ASCII text is written as \\uXXXX escapes), the documents hold non-ASCII text."""
+    import subprocess
+    idx, a_doc, b_doc, keep, scratch = args
+    res = {"cases": [], "fails": [], "counts": {}, "seen": [], "samples": [], "guard_cases": [], "payload_cases": []}
+    d = tempfile.mkdtemp(prefix="loc%d_" % idx, dir=scratch)
+    A, B, P = os.path.join(d, "a.json"), os.path.join(d, "b.json"), os.path.join(d, "delta.pickle")
+    a_text, b_text = json_src(a_doc, indent=1) + "\n ", json_src(b_doc, indent=2) + "\n"
+    for path, text in ((A, a_text), (B, b_text)):
+        with open(path, "w", encoding="ascii") as f:
+            f.write(text)
+    env = {"PATH": os.environ.get("PATH", "/usr/bin:/bin"), "LC_ALL": "C", "LANG": "C", "PYTHONUTF8": "0", "PYTHONCOERCECLOCALE": "0",
+           "PYTHONPATH": core.REPO, "PYTHONHASHSEED": "0", "PYTHONDONTWRITEBYTECODE": "1", core.GUARD: "1"}
+    prog = ("import locale, sys, logging; logging.disable(logging.CRITICAL); "
+            "sys.stderr.write('ENC=' + locale.getpreferredencoding(False) + '\\n'); "
+            "from deepdiff.commands import cli; cli()")
+    case = {"a_text": a_text, "b_text": b_text, "keep": keep, "debug": False, "faults": {}, "prebak": False,
+            "locale": "LC_ALL=C PYTHONUTF8=0", "edit_kinds": ["locale"]}
+    p1 = subprocess.run([sys.executable, "-c", prog, "diff", A, B, "--create-patch"], env=env, cwd=d,
+                        stdout=subprocess.PIPE, stderr=subprocess.PIPE, timeout=120)
+    enc = [l[4:] for l in p1.stderr.decode("ascii", "replace").splitlines() if l.startswith("ENC=")]
+    res["counts"]["locale:preferred_encoding:" + (enc[0] if enc else "?")] = 1
+    if p1.returncode != 0:
+        res["fails"].append((dict(case, clause="diff", exit_code=p1.returncode, output=p1.stderr.decode("ascii", "replace")[-300:]),
+                             "`deep diff A B --create-patch` failed under LC_ALL=C (exit %d)" % p1.returncode))
+        shutil.rmtree(d, ignore_errors=True)
+        return res
+    with open(P, "wb") as f:
+        f.write(p1.stdout)
+    p2 = subprocess.run([sys.executable, "-c", prog, "patch", A, P] + (["--backup"] if keep else []), env=env, cwd=d,
+                        stdout=subprocess.PIPE, stderr=subprocess.PIPE, timeout=120)
+    with open(P, "rb") as f:
+        p_same = f.read() == p1.stdout
+    o = {"A": read_text(A), "bak": read_text(A + ".bak"), "B": read_text(B), "P_same": p_same,
+         "cli": ["exit", p2.returncode], "fired": {}, "nat": {}, "trace": [],
+         "output": (p2.stdout + p2.stderr).decode("ascii", "replace")[-300:],
+         "others": sorted(x for x in os.listdir(d) if x not in ("a.json", "a.json.bak", "b.json", "delta.pickle"))}
+    sys.path.insert(0, core.REPO)
+    fails, _loaded, _err = oracle_reference(a_text, b_text, keep, o)
+    for (clause, what) in fails:
+        res["fails"].append((dict(case, clause=clause, observed=o), what + " [separate process, LC_ALL=C PYTHONUTF8=0]"))
+    res["seen"].append((("locale", a_text, b_text, keep), True))
+    res["counts"]["locale:runs"] = 1
+    shutil.rmtree(d, ignore_errors=True)
+    return res
+
+
+def gen_locale_pair(rng):
+    """a generated pair whose B (and sometimes A) holds non-ASCII text in values and member names"""
+    a, b, _ = gen_pair(rng)
+    if not isinstance(b, dict):
+        b = {"doc": b}
+    b = copy.deepcopy(b)
+    b[rng.choice(["u", "caf\u00e9", "\U0001F600"])] = rng.choice(NONASCII)
+    if rng.random() < 0.5:
+        b["l"] = [rng.choice(NONASCII) for _ in range(rng.randint(1, 3))]
+    if isinstance(a, dict) and rng.random() < 0.5:
+        a = copy.deepcopy(a)
+        a["\u00fc"] = rng.choice(NONASCII)
+    return a, b
 
 
 def direct_task(args):
@@ -1117,8 +1223,11 @@ def run(ctx):
     # the long tasks first
     with mp.get_context("fork").Pool(core.NCPU) as pool:
         r_direct = pool.apply_async(direct_task, ((rng.randrange(1 << 30), "all" if ctx.thorough else "single", ctx.scratch),))
+        ltasks = [(i,) + gen_locale_pair(rng) + (bool(i % 2), ctx.scratch) for i in range(80 if ctx.thorough else 16)]
+        r_locale = pool.map_async(locale_task, ltasks, chunksize=1)
         results = pool.map(pair_task, tasks, chunksize=1)
         rd = r_direct.get()
+        results_locale = r_locale.get()
     collect(ctx, results, "c20_cli")
     gcases = [g for r in results for g in r.get("guard_cases", [])]
     ctx.coq_cases("c20_json_guards", GUARD_HEADER, gcases, shard=150, label="json_guardsb on the generated documents")
@@ -1128,6 +1237,7 @@ def run(ctx):
                   pcases, shard=100, label="keys_path_okb / payload conditions / ops_sorted2 on the generated documents")
     alias_witness(ctx)
     collect(ctx, [rd], "c20_save_direct")
+    collect(ctx, results_locale, "c20_locale")
     ctx.note("fault_points", ["%s/%s" % p for p in POINTS])
     ctx.note("document_pairs", {"with_fault_schedules": len(pairs), "round_trip_only": n_ref})
     # every open finding must still reproduce on the implementation (otherwise the finding list is stale)
@@ -1152,6 +1262,14 @@ def replay(ctx, data):
         return
     if "a_text" not in case:
         return run(ctx)
+    if case.get("locale"):
+        r = locale_task((0, json.loads(case["a_text"]), json.loads(case["b_text"]), case.get("keep", False), ctx.scratch))
+        ctx.evaluations += 1
+        print("replay (separate process, %s): %d failing clause(s)" % (case["locale"], len(r["fails"])))
+        for (c, what) in r["fails"]:
+            print("   ", what, (c.get("observed") or {}).get("output", c.get("output", ""))[-200:])
+            ctx.fail(c, what)
+        return
     a_text, b_text = case["a_text"], case["b_text"]
     rc, delta_bytes, dexc, untouched = run_diff(a_text, b_text, ctx.scratch)
     print("replay: diff exit=%r exception=%r patch bytes=%d" % (rc, dexc, len(delta_bytes or b"")))
